@@ -390,3 +390,93 @@ impl Arena {
         self.text_items().into_iter().map(|(_, t)| t).collect()
     }
 }
+
+// ---------------------------------------------------------------------------------------------
+// serialisation of (a part of) the oracle DOM back to HTML
+
+const VOID: &[&str] = &["area", "base", "br", "col", "embed", "hr", "img", "input", "link", "meta", "param", "source", "track", "wbr"];
+
+fn esc_text(s: &str, out: &mut String) {
+    for c in s.chars() {
+        match c {
+            '&' => out.push_str("&amp;"),
+            '<' => out.push_str("&lt;"),
+            '>' => out.push_str("&gt;"),
+            c => out.push(c),
+        }
+    }
+}
+
+impl Arena {
+    /// Serialise the document, leaving out every subtree for which `skip` holds; with
+    /// `strip_style`, `<style>` elements and `style` attributes are left out as well.
+    pub fn to_html(&self, skip: &dyn Fn(usize) -> bool, strip_style: bool) -> String {
+        let mut out = String::new();
+        self.ser_node(0, skip, strip_style, &mut out);
+        out
+    }
+
+    fn ser_node(&self, n: usize, skip: &dyn Fn(usize) -> bool, strip_style: bool, out: &mut String) {
+        match &self.nodes[n].kind {
+            Kind::Document => {
+                out.push_str("<!DOCTYPE html>");
+                for &c in &self.nodes[n].children {
+                    self.ser_node(c, skip, strip_style, out);
+                }
+            }
+            Kind::Text(t) => {
+                let raw = self.nodes[n].parent.map(|p| matches!(self.name(p), Some("script" | "style"))).unwrap_or(false);
+                if raw {
+                    out.push_str(t);
+                } else {
+                    esc_text(t, out);
+                }
+            }
+            Kind::Comment(_) | Kind::Doctype | Kind::Pi => {}
+            Kind::Elem { name, attrs, .. } => {
+                if skip(n) {
+                    // a comment keeps the neighbouring text nodes separate, as they are in the
+                    // original document (merging them changes html2text's size estimates)
+                    out.push_str("<!---->");
+                    return;
+                }
+                if strip_style && self.name(n) == Some("style") {
+                    return;
+                }
+                let local: &str = &name.local;
+                out.push('<');
+                out.push_str(local);
+                for (k, v) in attrs {
+                    if strip_style && k == "style" {
+                        continue;
+                    }
+                    out.push(' ');
+                    out.push_str(k);
+                    out.push_str("=\"");
+                    for c in v.chars() {
+                        match c {
+                            '&' => out.push_str("&amp;"),
+                            '"' => out.push_str("&quot;"),
+                            c => out.push(c),
+                        }
+                    }
+                    out.push('"');
+                }
+                out.push('>');
+                if self.name(n).map(|l| VOID.contains(&l)).unwrap_or(false) {
+                    return;
+                }
+                if matches!(self.name(n), Some("pre" | "textarea" | "listing")) {
+                    // the parser drops one newline right after these start tags
+                    out.push('\n');
+                }
+                for &c in &self.nodes[n].children {
+                    self.ser_node(c, skip, strip_style, out);
+                }
+                out.push_str("</");
+                out.push_str(local);
+                out.push('>');
+            }
+        }
+    }
+}
